@@ -8,6 +8,7 @@ import (
 	"path"
 	"path/filepath"
 	"strings"
+	"time"
 
 	cfs "github.com/containerd/continuity/fs"
 	"golang.org/x/sys/unix"
@@ -79,7 +80,7 @@ func init() {
 	core.Register(&core.Prop{
 		ID:    "C14",
 		Level: "exploration",
-		Rule: "each case runs in a chroot jail: /outside (sentinel files with unique marked bytes, dirs, symlinks, fifo, char device) plus /cN/{srcroot,dstroot,sib}. " +
+		Rule: "Plus (1 case of 25) the directed variants deferred-*: directories Copy created for the path or on demand are replaced by an outward symlink by a later wildcard match; a sentinel tree with the same names and old time stamps is compared before and after. each case runs in a chroot jail: /outside (sentinel files with unique marked bytes, dirs, symlinks, fifo, char device) plus /cN/{srcroot,dstroot,sib}. " +
 			"Source and destination trees (<=18 entries, depth<=3, names {a,b,d,l,outside,sib} shared with the sentinel trees, ~40% symlinks, hard-linked source files) get symlink targets drawn from: absolute into /outside, /cN/sib, the other root and '/', '../'-chains of exactly and more than the depth needed to leave the root, in-tree, dangling (incl. not-yet-existing names inside sentinel dirs) and loops (self, pairs). " +
 			"src and dst arguments are drawn from entry paths, paths continuing through every symlink, sentinel-looking absolute and '../' arguments, nested new names, trailing separators, wildcards (src) and '..'-ending sources; flags are random subsets of {FollowLinks, AllowWildcards, AlwaysReplace, CopyDirContents, Chown, Utime, Mode}. One case in fifteen spells the source 'x/.' for an entry x of any type (three quarters non-directories, with FollowLinks also 'link/.') onto the root or an existing directory, two thirds with always-replace: x behaves exactly like 'x' (lands inside under its own name; violations there are reported as nondir-dot-source). fs.Copy is run once; errors are accepted. " +
 			"One case in four additionally runs with IncludePatterns (and a third of those with ExcludePatterns): patterns are derived from the source paths below the copied directory so that they select descendants of a directory but not the directory itself ('<dir>/*', '<dir>/<child>', '<dir>/*/*', '<dir>/**/<leaf>', '**/<leaf>', '*/<child>', '<dir>/**') plus refs.GenPatterns over the same paths; in two thirds of them whole trees are copied onto each other and in three quarters of those the destination gets a symlink to an existing directory outside the root (/outside/d, /outside, /cN/sib[/d[/d]], '../'-chains to the same) at the name of such a source directory (ancestors made real directories). Under patterns (a), (b), the landing of the (always selected) top-level entry and confinement are checked; replacement of nested destination symlinks is not (an unselected entry need not replace anything). " +
@@ -312,8 +313,95 @@ func hasInnerDotDot(arg string) bool {
 	return false
 }
 
+// c14Deferred: what Copy does by path at the very end of the call (stamping
+// the directories it created for the path or on demand) after a later
+// wildcard match has replaced one of those directories by a symlink that
+// leads out of the destination root, where directories of the same names
+// exist. Nothing outside the root may change.
+func c14Deferred(c *core.Ctx, r *core.Result) *core.Result {
+	R := core.NewRand(core.Mix(c.Seed, "C14-deferred", c.Index))
+	srcRoot, dstRoot, out := c.Dir+"/srcroot", c.Dir+"/dstroot", c.Dir+"/elsewhere"
+	for _, d := range []string{srcRoot, dstRoot} {
+		if err := os.Mkdir(d, 0755); err != nil {
+			r.Inconclusive = err.Error()
+			return r
+		}
+	}
+	if err := c14Sentinels(out, strings.Trim(c.Dir, "/")+"/elsewhere"); err != nil {
+		r.Inconclusive = "sentinels: " + err.Error()
+		return r
+	}
+	old := time.Unix(1_000_000_000, 0)
+	filepath.Walk(out, func(p string, fi os.FileInfo, err error) error {
+		if err == nil && fi.Mode()&os.ModeSymlink == 0 {
+			os.Chtimes(p, old, old)
+		}
+		return nil
+	})
+	variant := core.Pick(R, []string{"on-demand-parents", "created-path"})
+	st := &tree.Tree{}
+	dir := func(p string) {
+		st.Entries = append(st.Entries, tree.Entry{Path: p, Type: tree.Dir, Perm: 0755, Mtime: 1_111_111_111_000_000_000})
+	}
+	var srcArg, dstArg string
+	fl := cpFlags{Wild: true, Always: true}
+	switch variant {
+	case "on-demand-parents":
+		// matches p/a (a directory, d/d/file selected below it) and q/a (a
+		// symlink to the outside tree, which has d and d/d too)
+		for _, p := range []string{"p", "p/a", "p/a/d", "p/a/d/d", "q"} {
+			dir(p)
+		}
+		st.Entries = append(st.Entries,
+			tree.Entry{Path: "p/a/d/d/file", Type: tree.File, Perm: 0644, Mtime: 1e18, Data: []byte("selected")},
+			tree.Entry{Path: "p/a/d/other", Type: tree.File, Perm: 0644, Mtime: 1e18, Data: []byte("not selected")},
+			tree.Entry{Path: "q/a", Type: tree.Symlink, Perm: 0777, Mtime: 1e18, Target: out})
+		srcArg, dstArg = "*/a", "/"
+		fl.Include = []string{"d/d/file"}
+	case "created-path":
+		// s/0 -> / makes the destination of the second match the root
+		// itself, where s/a (a symlink to the outside tree) replaces the
+		// directory a that was created for the path a/d/b
+		dir("s")
+		st.Entries = append(st.Entries,
+			tree.Entry{Path: "s/0", Type: tree.Symlink, Perm: 0777, Mtime: 1e18, Target: "/"},
+			tree.Entry{Path: "s/a", Type: tree.Symlink, Perm: 0777, Mtime: 1e18, Target: out})
+		srcArg, dstArg = "s/*", "a/d/b"
+		fl.Utime = true
+	}
+	st.Sort()
+	if err := tree.Materialise(srcRoot, st); err != nil {
+		r.Inconclusive = "materialise: " + err.Error()
+		return r
+	}
+	before, err := tree.Snapshot(out, tree.SnapOpt{})
+	if err != nil {
+		r.Inconclusive = err.Error()
+		return r
+	}
+	r.FP = "deferred|" + variant
+	r.Sample = map[string]any{"variant": "deferred-" + variant, "source": st.Lines(), "src": srcArg, "dst": dstArg, "flags": fl.String(), "outside": out}
+	cerr := runCopy(srcRoot, srcArg, dstRoot, dstArg, fl)
+	after, err := tree.Snapshot(out, tree.SnapOpt{})
+	if err != nil {
+		r.Violate("outside-changed", "deferred-%s: the tree outside the destination root cannot be read after the copy: %v", variant, err)
+		return r
+	}
+	m := tree.Mask{Perm: true, Owner: true, Mtime: true, DirMtime: true, Xattrs: true, DirXattrs: true, Links: true, Data: true, Rdev: true, Target: true}
+	if d := tree.Diff(before, after, m); len(d) > 0 {
+		r.ViolateD("outside-changed", r.Sample, "src=%q dst=%q [%s] (%s, copy returned %v): entries outside the destination root changed:\n%s", srcArg, dstArg, fl, variant, cerr, strings.Join(trunc(d, 6), "\n"))
+	}
+	r.Count("copies", 1)
+	r.Count("copies_whose_created_directories_are_replaced_by_an_outward_symlink", 1)
+	r.Nontrivial = true
+	return r
+}
+
 func c14Run(c *core.Ctx) *core.Result {
 	r := &core.Result{}
+	if c.Index%25 == 13 && os.Geteuid() == 0 {
+		return c14Deferred(c, r)
+	}
 	relabel := ""
 	defer func() {
 		if relabel == "" {
